@@ -37,6 +37,9 @@ struct State {
     /// Fail the n-th (0-based) file-backed mmap / madvise on a sim fd mapping.
     fail_mmap_at: Option<(u32, i32)>,
     fail_madvise_at: Option<(u32, i32)>,
+    /// close(2) calls that report EINTR (after releasing the descriptor, as
+    /// Linux does).
+    close_eintr: u32,
     mmap_count: u32,
     madvise_count: u32,
     /// Live mappings of sim fds made through the shim: (addr, len, fd).
@@ -49,6 +52,7 @@ static STATE: Mutex<State> = Mutex::new(State {
     simfds: Vec::new(),
     fail_mmap_at: None,
     fail_madvise_at: None,
+    close_eintr: 0,
     mmap_count: 0,
     madvise_count: 0,
     sim_maps: Vec::new(),
@@ -90,6 +94,7 @@ pub fn reset() {
         s.log.clear();
         s.fail_mmap_at = None;
         s.fail_madvise_at = None;
+        s.close_eintr = 0;
         s.mmap_count = 0;
         s.madvise_count = 0;
         s.sim_maps.clear();
@@ -107,6 +112,11 @@ pub fn fail_mmap(nth: u32, errno: i32) {
 
 pub fn fail_madvise(nth: u32, errno: i32) {
     with(|s| s.fail_madvise_at = Some((nth, errno)));
+}
+
+/// The next `n` close(2) calls close the descriptor and then fail with EINTR.
+pub fn close_reports_eintr(n: u32) {
+    with(|s| s.close_eintr = n);
 }
 
 pub fn take_log() -> Vec<ShimEvent> {
@@ -155,13 +165,25 @@ pub unsafe extern "C" fn close(fd: c_int) -> c_int {
     let _scope = track::scope(track::TAG_HARNESS);
     let ret = raw_close(fd);
     let e = errno();
-    with(|s| {
+    let eintr = with(|s| {
         if s.recording {
             s.log.push(ShimEvent::Close { fd, ret });
+        }
+        if ret == 0 && s.close_eintr > 0 && fd > 2 {
+            s.close_eintr -= 1;
+            true
+        } else {
+            false
         }
     });
     if ret == 0 {
         crate::sim::on_close(fd);
+    }
+    if eintr {
+        // The descriptor is gone all the same (close(2), "Dealing with error
+        // returns from close()").
+        set_errno(libc::EINTR);
+        return -1;
     }
     set_errno(e);
     ret
